@@ -164,6 +164,9 @@ type LoopParams struct {
 	// Stored: the session starts from a checkpoint an earlier session stored (two user documents per vBucket,
 	// both acknowledged and saved under the vBucket's vbUUID of that time) instead of from the empty store
 	Stored bool `json:"stored"`
+	// Latest: checkpoint.autoReset = latest, an earlier session has stored a checkpoint for vb0 only: "no checkpoint
+	// found" does not apply, vb1 (which has a high seqno but no checkpoint of its own) starts from 0 unflagged
+	Latest bool `json:"latest"`
 }
 
 func init() {
@@ -197,6 +200,7 @@ func init() {
 				{Scenario: "c14_loop", Params: mustJSON(LoopParams{Depth: d, Failover: true}), Bound: 0, Shards: 8, Note: "alphabet extended by a fail-over without rollback (transient end, re-open under a new vbUUID)"},
 				{Scenario: "c14_loop", Params: mustJSON(LoopParams{Depth: d, Failover: true, Stored: true}), Bound: 0, Shards: 8, Note: "the same from a stored checkpoint of an earlier session (the loaded positions carry the vbUUID of that time)"},
 				{Scenario: "c14_loop", Params: mustJSON(LoopParams{Depth: d, Rebalance: true, Stored: true}), Bound: 0, Shards: 8, Note: "Rebalance() alphabet from a stored checkpoint"},
+				{Scenario: "c14_loop", Params: mustJSON(LoopParams{Depth: d, Rebalance: true, Latest: true}), Bound: 0, Shards: 8, Note: "autoReset=latest with the Rebalance() alphabet: a vBucket that only ever received the library's own documents is loaded by the next session without being flagged"},
 				{Scenario: "c14_loop", Params: mustJSON(LoopParams{Depth: d, SkipUntil: true}), Bound: 0, Shards: 8, Note: "skipUntil one hour ahead of the server clock: the library's own documents are also 'old'"},
 				{Scenario: "c14_loop", Params: mustJSON(LoopParams{Depth: d, ReopenFault: true}), Bound: 0, Shards: 8, Note: "alphabet extended by a transient end whose first re-open attempt is rejected"},
 				{Scenario: "c14_loop", Params: mustJSON(LoopParams{Sched: true}), Bound: b, Shards: 8, Note: "fixed history deliver,ack,commit,tick,tick over all schedules within the bound"},
@@ -209,6 +213,9 @@ func loopMain(p LoopParams) {
 	resetGlobals()
 	o := EnvOpts{Vbs: 2, CheckpointType: "auto", CheckpointInterval: 10e9, WrapMeta: true, MembershipType: "couchbase"}
 	o.MembershipType = "static"
+	if p.Latest {
+		o.AutoReset = "latest"
+	}
 	userMut := mut
 	if p.SkipUntil {
 		t := time.Unix(1_700_000_000, 0).Add(time.Hour)
@@ -220,9 +227,12 @@ func loopMain(p LoopParams) {
 		}
 	}
 	c := NewCluster(&o)
-	if p.Stored {
+	if p.Stored || p.Latest {
 		for vb := uint16(0); vb < 2; vb++ {
 			c.Append(vb, marker(1, 2), userMut(1, "old1"), userMut(2, "old2"))
+			if p.Latest && vb == 1 {
+				continue // (Latest: a checkpoint exists for vb0 only, so nothing is reset: vb1 starts from 0)
+			}
 			seedCheckpoint(c, srcBucket, o.Group, vb, uint64(c.Vb[vb].Failover[0].VbUUID), 2, 1, 2)
 		}
 	}
@@ -375,7 +385,7 @@ func loopMain(p LoopParams) {
 		// the furthest event of this vBucket that was delivered to the library and is either a
 		// library-internal key or an acknowledged user event
 		var want uint64
-		if p.Stored {
+		if p.Stored || (p.Latest && vb == 0) {
 			want = 2 // the position the earlier session stored
 		}
 		for _, pk := range c.Vb[vb].Log {
